@@ -294,13 +294,28 @@ def flood_coarse_rounding_hang(case, tag, event):
 KNOWN_CLASSES["flood_coarse_rounding_hang"] = flood_coarse_rounding_hang
 
 def circle_square_overflow(case, tag, event):
-    """a circle query on which a squared distance or the squared radius overflows the scalar type (f32: a coordinate or the radius above
-    ~1.8e19; f64: above ~1.3e154): the circle metric compares infinities"""
-    if tag != "shape" or not case.ops or case.ops[-1].split()[0] not in ("vcirc", "ecirc"):
+    """a shape query on which a squared length overflows the scalar type: a circle query with a coordinate or the radius above ~1.8e19 (f32) /
+    ~1.3e154 (f64), or a rectangle query on a triangulation with VERTEX coordinates above that bound (the collinear case of the rectangle metric
+    projects with squared lengths): the metric compares infinities"""
+    if tag != "shape" or not case.ops:
         return False
+    op = case.ops[-1].split()[0]
     lim = 1.8e19 if case.scalar == "f32" else 1.3e154
-    vals = _all_coords(case)
-    return bool(vals) and 2 * max(vals) > lim
+    if op in ("vcirc", "ecirc"):
+        vals = _all_coords(case)
+        return bool(vals) and 2 * max(vals) > lim
+    if op in ("vrect", "erect"):
+        vs = []
+        for o in case.ops:
+            t = o.split()
+            if t[0] in ("ins", "insh") or t[0].startswith("bulk") or t[0] in ("adde", "addes"):
+                for tok in t[1:]:
+                    if tok.isdigit() and len(tok) > 12:
+                        x = gen.from_bits(int(tok))
+                        if x == x and abs(x) != float("inf"):
+                            vs.append(abs(x))
+        return bool(vs) and 2 * max(vs) > lim
+    return False
 
 KNOWN_CLASSES["circle_square_overflow"] = circle_square_overflow
 
